@@ -4,6 +4,7 @@ import (
 	"encoding/json"
 	"fmt"
 	"math"
+	"runtime"
 	"sort"
 	"strconv"
 	"strings"
@@ -1317,6 +1318,10 @@ func c04Check(c *mc.Ctx, cs c04Case) {
 			k.cli()
 			return
 		}
+		if strings.HasPrefix(cs.Op, "large-") {
+			c04Large(c, cs.X, strings.TrimPrefix(cs.Op, "large-"))
+			return
+		}
 		c.Fatal("unknown op %q", cs.Op)
 	}
 }
@@ -1653,9 +1658,135 @@ func c04Tasks(tier string) []mc.Task {
 		}
 	}
 
+	// (vi') rows of every length 8..40 (and around 64, 256): the first row cycles through the amino acids and
+	// symbols, row j+1 differs from it at position j only - by the letter whose code differs in the lowest bit
+	// (D/E, F/G, H/I, L/M, P/Q, R/S, V/W, X/Y, ...) when there is one, else by another letter - so that a
+	// differing column stands after identical ones at every offset of an 8- or 16-column block
+	ts = append(ts, mc.Task{Name: "shape#length-sweep", Run: func(c *mc.Ctx) {
+		const cyc = "ADEFGHILMPQRSVWXYKNT-C"
+		var lens []int
+		for l := 8; l <= 40; l++ {
+			lens = append(lens, l)
+		}
+		lens = append(lens, 63, 64, 65, 255, 256, 257)
+		for _, L := range lens {
+			for _, off := range []int{0, 3} {
+				ref := make([]byte, L)
+				for j := range ref {
+					ref[j] = cyc[(j+off)%len(cyc)]
+				}
+				step := 1
+				if L > 40 {
+					step = 7
+				}
+				for j0 := 0; j0 < L; j0 += 3 * step {
+					seqs := []string{string(ref)}
+					for j := j0; j < min(L, j0+3*step); j += step {
+						b := append([]byte{}, ref...)
+						if x := b[j] ^ 1; x >= 'A' && x <= 'Z' {
+							b[j] = x
+						} else {
+							b[j] = 'Z'
+						}
+						seqs = append(seqs, string(b))
+					}
+					c04Check(c, c04Case{Op: "Diff", Seqs: seqs})
+					c04Check(c, c04Case{Op: "Transpose", Seqs: seqs})
+				}
+			}
+			if c.Expired() {
+				return
+			}
+		}
+	}})
+	// (vi'') a large selection (512 rows x 512 of 600 sites = 2^18 cells) with 2 and 4 processors under the
+	// controlled scheduler: SelectSites, SubAlign and Transpose are sequential operations; code that shares
+	// the rows out between goroutines is explored with one preemption and must give the same rows in the same order
+	for _, procs := range []int{2, 4} {
+		procs := procs
+		ts = append(ts, mc.Task{Name: fmt.Sprintf("large#procs%d", procs), Run: func(c *mc.Ctx) { c04Large(c, procs, "") }})
+	}
+
 	// (vii) the commands
 	ts = append(ts, c04CLITasks(thorough)...)
 	return ts
+}
+
+// c04Large: see (vi”) in c04Tasks.
+func c04Large(c *mc.Ctx, procs int, only string) {
+	const n, L = 512, 600
+	in := make(rows, n)
+	for i := range in {
+		b := make([]byte, L)
+		for j := range b {
+			b[j] = "ACGT-N"[(i*7+j*3+(i*j)%5+(j>>(i%8)))%6]
+		}
+		in[i] = row{Name: fmt.Sprintf("s%03d", (i*37)%n), Seq: string(b)} // names not in sorted order
+	}
+	sites := make([]int, 0, 512)
+	for j := 0; j < 512; j++ {
+		sites = append(sites, (j*7)%L)
+	}
+	defer runtime.GOMAXPROCS(runtime.GOMAXPROCS(procs))
+	for _, op := range []string{"SelectSites", "SubAlign", "Transpose"} {
+		op := op
+		if only != "" && only != op {
+			continue
+		}
+		payload := c04Case{Op: "large-" + op, X: procs}
+		mc.SchedProbeJudged(c, "C04/"+op+"/large", fmt.Sprintf("%s on a %dx%d alignment, GOMAXPROCS %d", op, n, L, procs), 1, payload, func() any {
+			al, err := mkAlign(align.NUCLEOTIDS, in)
+			if err != nil {
+				return "build: " + err.Error()
+			}
+			var out align.Alignment
+			switch op {
+			case "SelectSites":
+				out, err = al.SelectSites(sites)
+			case "SubAlign":
+				out, err = al.SubAlign(3, 590)
+			case "Transpose":
+				out, err = al.Transpose()
+			}
+			if err != nil {
+				return "error: " + err.Error()
+			}
+			return readRows(out)
+		}, func(a, b any) bool { return fmt.Sprint(a) == fmt.Sprint(b) }, func(first any) string {
+			got, ok := first.(rows)
+			if !ok {
+				return fmt.Sprint(first)
+			}
+			var want rows
+			switch op {
+			case "SelectSites":
+				want = c04Pick(in, sites)
+			case "SubAlign":
+				want = c04Pick(in, c04Range(3, 590))
+			case "Transpose":
+				want = make(rows, L)
+				for j := range want {
+					b := make([]byte, n)
+					for i := range in {
+						b[i] = in[i].Seq[j]
+					}
+					want[j] = row{Name: strconv.Itoa(j), Seq: string(b)}
+				}
+			}
+			if len(got) != len(want) {
+				return fmt.Sprintf("%d rows, want %d", len(got), len(want))
+			}
+			for i := range want {
+				if got[i] != want[i] {
+					return fmt.Sprintf("row %d is %s (%.20s…), want %s (%.20s…)", i, got[i].Name, got[i].Seq, want[i].Name, want[i].Seq)
+				}
+			}
+			return ""
+		})
+		c.Eval()
+		c.Nontrivial(fmt.Sprintf("large|%s|%d", op, procs))
+		c.Outcome("large:" + op + ":ok")
+	}
 }
 
 func init() {
@@ -1667,7 +1798,7 @@ func init() {
 			"(v) same alignments with L>=1, every row and one unknown name as reference: RefCoordinates for all (start,length) in [-1,L+1]^2, followed by SubAlign of the returned window; RefSites for the same site lists. " +
 			"(vi) Split: n=1 L=1..6, n=2 L=1..4, n=3 L=1..2 (thorough: n=3 L=3, and n=2 L=5..6 over {A,-}) x every map of the L sites onto exactly 1, 2 or 3 blocks x 5 ways of building the PartitionSet (AddRange with runs; with greedy arithmetic progressions a-b/k, end on the last site; the same with the end extended to just before the next multiple; String() of the first re-parsed by io/partition; a partition file with the modulo forms parsed by io/partition), plus every 2-block map of L+1 sites (must be refused). " +
 			"(i) AddRange on L=1..5 for all (start,end) in [-1,L+1]^2 x modulo -1..3, through the API and through a one-line partition file. " +
-			"(ii) Transpose (once: row j named j is column j; twice: residues) and DiffWithFirst then ReplaceMatchChars over {A,C,-,.}: n=1 L<=5, n=2 L<=4, n=3 L<=2 (thorough +1). " +
+			"(ii) Transpose (once: row j named j is column j; twice: residues) and DiffWithFirst then ReplaceMatchChars over {A,C,-,.}: n=1 L<=5, n=2 L<=4, n=3 L<=2 (thorough +1); the same two on rows of every length 8..40 and 63..65, 255..257 whose first row cycles through 22 amino acids and symbols and whose other rows differ from it at one position each (by the letter whose code differs in the lowest bit where there is one); SelectSites (512 of 600 sites), SubAlign and Transpose on a 512x600 alignment with GOMAXPROCS 2 and 4 under the controlled scheduler (sequential operations: one execution unless they spawn goroutines; rows in the same order under every interleaving). " +
 			"(iii) Concat and Append for every pair (first: 0..2 rows named from {a,b} in any order, second: 0..2 rows named from {a,b,c} in any order, lengths 0..2 (thorough 0..3)). " +
 			"(vii) the commands subseq (plain, --ref-seq with every row and an unknown name, --reverse), subsites (--sitefile; plain, --ref-seq, --reverse), extract (one block for all (start,end) in [-1,L+1]^2, and every ordered pair of blocks lying inside the alignment, overlapping or not; plain and --ref-seq), split, concat (pairs as in (iii) with 1..2 rows and lengths 1..2), trim seq, executed in process (cmd.RootCmd) on FASTA files: all 2-row alignments of length 1..3 (thorough 1..4) over {A,C,-} with the same argument ranges (site lists of length 1..2, at L=4 length 1 and single extract blocks only; partition files for every map onto 1..3 blocks in range and modulo form, and every 2-block map of L+1 sites). " +
 			"A case is non-trivial when the expected result differs from the input and from the empty alignment (proper window, non-zero trim, reference with a gap before or inside the window, two or more blocks, both operands non-empty).",
